@@ -55,6 +55,7 @@ def run(repo, tier):
     r.rule("R18.3", "the value set in __enter__ derives from a register read performed inside __enter__ (read-modify-write locality)", floor=1)
     r.rule("R18.4", "per path, the mask arithmetic changes exactly the bits of the requested fields, to the requested values", floor=4)
     r.rule("R18.5", "FZ/DAZ readers and __str__ test the same bits the writer changes", floor=3)
+    r.rule("R18.7", "get_mxcsr returns a fresh snapshot object on every call (saved_state must not alias a buffer that later reads overwrite)", floor=1)
     r.rule("R18.6", "machine-code blobs: setter slot holds `ldmxcsr [rdi]; ret`, getter slot `stmxcsr [rdi]; ret`, offsets follow write order", floor=2)
 
     tree = repo.tree(REL)
@@ -393,6 +394,28 @@ def run(repo, tier):
         other = "_get_mxcsr" if slot == "_set_mxcsr" else "_set_mxcsr"
         ok = slot in called and other not in called
         r.ob("R18.6", f"fpu.py::MXCSRRegister.{meth} -> {slot}", ok, f"{meth} calls {sorted(called)}", loc(REL, f))
+    # ------------------------------------------------------------------ R18.7 snapshot freshness
+    gm = _method(reg, "get_mxcsr")
+    n_ret = 0
+    for p in enumerate_paths(gm):
+        if p.exit != "return" or p.exit_node.value is None:
+            continue
+        n_ret += 1
+        og = origins(p.exit_node.value, p.events, len(p.events))
+        fresh = any(k == "call" and v.split(".")[-1] in ("c_uint32", "c_uint", "c_ulong", "c_int32") for k, v in og)
+        shared = sorted(v for k, v in og if k == "attr" and v.startswith("self."))
+        ok = fresh and not shared
+        r.ob(
+            "R18.7",
+            "fpu.py::MXCSRRegister.get_mxcsr returns a fresh object",
+            ok,
+            f"get_mxcsr returns `{norm_src(p.exit_node.value)}` which " + (f"is the shared attribute {shared}" if shared else "is not freshly allocated in the call")
+            + ": __enter__ stores this object as saved_state, and the next register read (r.FZ, str(r), a nested __enter__) overwrites it, so __exit__ restores the wrong value",
+            loc(REL, p.exit_node),
+        )
+    if n_ret == 0:
+        raise AnalysisError("get_mxcsr: no return found")
+    # saved_state must be the object returned by get_mxcsr or a copy, never the buffer passed to the stub elsewhere
     return r
 
 
